@@ -98,6 +98,7 @@ func C12(c *core.Ctx) {
 	c.Floor("C-shared/goroutine-roots", len(roots), 20)
 	ncl := checkNoCapturedWrites(c, "C-shared/goroutine-literals-assign-no-captured-variable", p)
 	nsa := checkNoSharedArgumentWrites(c, "C-shared/goroutines-write-no-argument-they-all-share", p)
+	c.Count("shared_result_call_sites", checkNoWritesThroughSharedResults(c, "C-shared/no-write-through-a-table-handed-out-by-reference", p))
 	c.Count("shared_goroutine_arguments_checked", nsa)
 	c.Floor("C-shared/goroutines-write-no-argument-they-all-share", nsa, 1)
 	c.Count("goroutine_literals", ncl)
@@ -773,6 +774,8 @@ func checkMapRanges(c *core.Ctx, rule string, pkgs ...string) {
 		switch mr.class {
 		case "single", "commutative":
 			c.Ob(key+"/"+mr.class, true, mr.stmt.Pos(), "")
+		case "arbitrary-pick":
+			c.Ob(key+"/takes-one-entry-of-a-map-that-may-hold-several", false, mr.stmt.Pos(), "the loop over the map ends after its first iteration and nothing ensures that the map has exactly one entry: which entry is taken differs from run to run")
 		default:
 			h, ok := mapHarness[fkey]
 			if !ok {
